@@ -34,7 +34,7 @@ func ruleAddOriginTests(p *Prog, l *Ledger, tier string) {
 		return ""
 	}
 	n := 0
-	for _, b := range fn.Blocks {
+	for _, b := range p.helperBlocks(fn) {
 		for _, ins := range b.Instrs {
 			bo, ok := ins.(*ssa.BinOp)
 			if !ok {
